@@ -102,7 +102,7 @@ theorem splitFirst_some {sep s b a : Str} (h : splitFirst sep s = some (b, a)) :
         refine ⟨by rw [h1]; simp, ?_⟩
         intro j hj
         cases j with
-        | zero => simpa using hp
+        | zero => rw [List.drop_zero]; exact Bool.eq_false_iff.mpr hp
         | succ j => simpa using h2 j (by simpa using hj)
 
 /-- `splitFirst` fails only if there is no occurrence at all -/
@@ -128,7 +128,7 @@ theorem splitFirst_none {sep s : Str} (h : splitFirst sep s = none) :
       | none =>
         intro j hj
         cases j with
-        | zero => simpa using hp
+        | zero => rw [List.drop_zero]; exact Bool.eq_false_iff.mpr hp
         | succ j => simpa using ih hr j (by simpa using hj)
 
 /-- `splitLast` finds an occurrence, and no occurrence starts further right -/
@@ -196,7 +196,7 @@ where
         · rename_i hp
           intro j hj
           cases j with
-          | zero => simpa using hp
+          | zero => rw [List.drop_zero]; exact Bool.eq_false_iff.mpr hp
           | succ j => simpa using ih hr j (by simpa using hj)
 
 /-- `splitLast` fails only if there is no occurrence at all -/
@@ -263,12 +263,11 @@ theorem partition_text (x : AStr) (sep : Str) :
     have hn := PySpec.splitFirst_none h
     have : Py.find x.s sep 0 = none := (find_none_iff _ _ _).mpr (fun i hi _ => hn i hi)
     rw [partitionGen_none x sep false (by simpa using this)]
-    rfl
   | some ba =>
     obtain ⟨b, a⟩ := ba
     obtain ⟨h1, h2⟩ := PySpec.splitFirst_some h
     have hocc : sep.isPrefixOf (x.s.drop b.length) = true := by rw [h1]; exact occ_of_decomp b sep a
-    have hlen : b.length ≤ x.s.length := by rw [h1]; simp; omega
+    have hlen : b.length ≤ x.s.length := by rw [h1]; simp
     have hf : Py.find x.s sep 0 = some b.length :=
       (find_some_iff _ _ _ _).mpr ⟨hlen, Nat.zero_le _, hocc, fun i hi _ => h2 i hi⟩
     rw [partitionGen_some x sep false b.length (by simpa using hf) hocc]
@@ -285,12 +284,11 @@ theorem rpartition_text (x : AStr) (sep : Str) :
     have hn := PySpec.splitLast_none h
     have : Py.rfind x.s sep = none := (rfind_none_iff _ _).mpr hn
     rw [partitionGen_none x sep true (by simpa using this)]
-    rfl
   | some ba =>
     obtain ⟨b, a⟩ := ba
     obtain ⟨h1, h2⟩ := PySpec.splitLast_some h
     have hocc : sep.isPrefixOf (x.s.drop b.length) = true := by rw [h1]; exact occ_of_decomp b sep a
-    have hlen : b.length ≤ x.s.length := by rw [h1]; simp; omega
+    have hlen : b.length ≤ x.s.length := by rw [h1]; simp
     have hf : Py.rfind x.s sep = some b.length := (rfind_some_iff _ _ _).mpr ⟨hlen, hocc, h2⟩
     rw [partitionGen_some x sep true b.length (by simpa using hf) hocc]
     simp only [h1]
@@ -301,7 +299,7 @@ theorem partition_lossless (x : AStr) (sep : Str) (r : Bool) :
     (x.partitionGen sep r).1.s ++ (x.partitionGen sep r).2.1.s ++ (x.partitionGen sep r).2.2.s =
       x.s := by
   cases h : (if r then Py.rfind x.s sep else Py.find x.s sep 0) with
-  | none => rw [partitionGen_none x sep r h]; simp; rfl
+  | none => rw [partitionGen_none x sep r h]; simp
   | some i =>
     have hocc : sep.isPrefixOf (x.s.drop i) = true := by
       cases r
